@@ -195,6 +195,19 @@ fn transform(u: &mut Choices, f: &File, doc: &V) -> Option<Xform> {
                     _ => None,
                 };
                 let via_call = as_call.is_some();
+                // a function result is a computed value, not a literal (it compares like a query
+                // result: no list / single-value coercion, F24): the program to compare with is
+                // therefore not the one with the literal in place but the same program with the
+                // definition under a name that nothing else uses - what is judged is the shadowing
+                let mut unshadowed: Option<File> = None;
+                if let Some(call) = &as_call {
+                    let mut h = g.clone();
+                    if let Kind::Binary { rhs, .. } = &mut clause_at(&mut h, &s).kind {
+                        *rhs = Expr::Query { some: false, q: var_q("zw", vec![]) };
+                    }
+                    add_let(&mut h, &s, lvl, Let { name: "zw".into(), value: call.clone() });
+                    unshadowed = Some(h);
+                }
                 add_let(&mut g, &s, lvl, Let { name: fresh, value: as_call.unwrap_or(Expr::Lit(l.clone())) });
                 let mut note = format!("rhs literal {} -> let{} at {:?}", lit_text(&l), if via_call { " (through a function call)" } else { "" }, lvl);
                 if kind == 1 && lvl != Level::File {
@@ -202,7 +215,13 @@ fn transform(u: &mut Choices, f: &File, doc: &V) -> Option<Xform> {
                     g.lets.push(Let { name: "zv".into(), value: Expr::Lit(Lit::V(V::s("outer-shadowed"))) });
                     note.push_str(" + shadowed outer definition");
                 }
-                return Some(Xform { kind: if kind == 1 { "shadow" } else { "rhs-literal" }, file: g, note, resolves: true, inline: None });
+                // (without an outer definition there is nothing to shadow: compare with the literal form
+                // only for literal definitions)
+                let inline = if via_call && kind == 1 && lvl != Level::File { unshadowed } else { None };
+                if via_call && inline.is_none() {
+                    return None;
+                }
+                return Some(Xform { kind: if via_call { "shadow-function" } else if kind == 1 { "shadow" } else { "rhs-literal" }, file: g, note, resolves: true, inline });
             }
             None
         }
